@@ -51,7 +51,9 @@ def draws(draw, item):
             # cell + atoms, and a translation of the atoms alone (a quarter of them far: the stack then lies outside its cell)
             "rigid": draw(st.one_of(st.none(), gm.presentations(permute=False))),
             # a stack that is not periodic along its normal may describe that direction by a zero cell vector (ASE's form without vacuum)
-            "zero_c": draw(st.sampled_from([False, False, True]))}
+            "zero_c": draw(st.sampled_from([False, False, True])),
+            # ... or by a tight box: the cell height is exactly the height of the stack (atoms ON both faces)
+            "tight_c": draw(st.sampled_from([False, False, True]))}
 
 
 def items(tier):
@@ -153,6 +155,13 @@ def run_case(desc):
         r = np.random.RandomState(desc["noise_seed"])
         d = r.normal(size=(n, 3)); d /= np.linalg.norm(d, axis=1)[:, None]
         s2.set_positions(s2.get_positions() + d * desc["noise"] * r.uniform(0, 1, (n, 1)))
+    if desc.get("tight_c") and not desc.get("zero_c") and not desc["pbcz"]:
+        z = s2.get_positions()[:, 2]
+        s2.translate([0.0, 0.0, -z.min()])
+        cz = np.asarray(s2.get_cell()).copy()
+        cz[2] = [0.0, 0.0, float(np.ptp(z))]
+        s2.set_cell(cz, scale_atoms=False)
+        out.cls("cell-normal=tight")
     if desc.get("zero_c") and not desc["pbcz"]:
         cz = np.asarray(s2.get_cell()).copy()
         cz[2] = 0.0
